@@ -212,7 +212,7 @@ func features(x string) []string {
 			if len(w) == 1 && w[0] == '\\' && i < n && r[i] == '\n' {
 				// a lone continuation backslash is not a token
 				if tokensOnLine == 0 {
-					set["line-continuation-without-token-before"] = true
+					set["line-continuation-without-token-before"] = true // (repaired, see `repaired`)
 				}
 				if openOnLine {
 					set["token-after-open-brace-on-same-line"] = true
@@ -294,12 +294,13 @@ func features(x string) []string {
 // and a heredoc start exactly where the lexer starts a token (after white space, after a closing
 // quote, behind a leading BOM) and nowhere else; a `{` ending the input is written; the empty
 // input stays empty; CR is ignored like in the lexer; heredoc detection uses its own flag and
-// the lexer's marker rules; an escaped newline sets the `space` flag.
+// the lexer's marker rules and ends the heredoc at the marker like the lexer; an escaped newline
+// sets the `space` flag; outside quotes a backslash is an ordinary character of a word.
 var repaired = []string{
 	"backtick-in-comment", "backtick-in-dquote", "backtick-in-heredoc", "backtick-in-word",
 	"ws-or-brace-in-backquote", "special-in-backquote", "hash-in-word", "dangling-open-brace-at-eof",
 	"empty-input", "cr-inside-word",
-	"special-right-after-line-continuation",
+	"special-right-after-line-continuation", "line-continuation-without-token-before", "glued-after-quote",
 }
 
 // scanWord consumes an unquoted word starting at i (up to the next white space) and records
@@ -329,8 +330,15 @@ func scanWord(r []rune, i int, set map[string]bool) int {
 		case '\\':
 			// "\"+newline at the end of a word (or alone) is a line continuation
 			if !(k == len(w)-1 && i < n && r[i] == '\n') {
-				set["escape"] = true
 				skip = true
+				// since the repair a backslash and the character it escapes are two ordinary
+				// characters of the word for the formatter, as for the lexer. What is left:
+				// for the lexer `\"`, "\`" and `\#` at the START of a token still open a
+				// string / a comment, and a backslash before white space other than a newline
+				// stays armed into the next token
+				if k == len(w)-1 || (k == 0 && (w[1] == '"' || w[1] == '`' || w[1] == '#')) {
+					set["escape"] = true
+				}
 			} else if i+1 < n && (r[i+1] == '"' || r[i+1] == '<' || r[i+1] == '`' || r[i+1] == '{' || r[i+1] == '}') {
 				// the formatter's `space` flag is false right after an escaped newline, so a
 				// quote / heredoc / brace starting the next line in column 0 is not recognised
@@ -429,7 +437,7 @@ func equalRunes(a, b []rune) bool {
 }
 
 // inProvedFragment re-implements the Lean predicate `inW` (lean/CaddyModel/C17/Fragment.lean):
-// plain words, non-CR white space, `… {⏎ … ⏎}` blocks, comments without backslash / trailing blank (not right
+// plain words, non-CR white space, `… {⏎ … ⏎}` blocks, simple double-quoted strings, comments without backslash / trailing blank (not right
 // after a brace on the same line, not right before `{`). On this
 // fragment token preservation and idempotence are THEOREMS (Props.fmt_preserves_tokens_partial /
 // fmt_idempotent_partial); the model prints the same bit (field W:), so the two definitions are
@@ -445,6 +453,7 @@ func inProvedFragment(x string) bool {
 		kOpen
 		kClose
 		kCmt
+		kDq
 	)
 	prev := kNone
 	i, n := 0, len(r)
@@ -487,6 +496,20 @@ func inProvedFragment(x string) bool {
 			}
 			i = j
 			kind = kCmt
+		} else if r[i] == '"' {
+			// a simple string: one line, no backslash, closing quote followed by white space
+			j := i + 1
+			for j < n && r[j] != '"' {
+				if r[j] == '\\' || r[j] == '\n' {
+					return false
+				}
+				j++
+			}
+			if j >= n || (j+1 < n && !unicode.IsSpace(r[j+1])) {
+				return false
+			}
+			i = j + 1
+			kind = kDq
 		} else {
 			w0 := i
 			for i < n && !unicode.IsSpace(r[i]) {
@@ -511,7 +534,7 @@ func inProvedFragment(x string) bool {
 			if kind == kClose {
 				return false
 			}
-		case kPlain:
+		case kPlain, kDq:
 			if kind == kOpen && nl != 0 || kind == kClose && nl < 1 {
 				return false
 			}
@@ -526,5 +549,5 @@ func inProvedFragment(x string) bool {
 		}
 		prev = kind
 	}
-	return prev == kPlain || prev == kClose || prev == kCmt
+	return prev == kPlain || prev == kClose || prev == kCmt || prev == kDq
 }
